@@ -234,10 +234,12 @@ const (
 	BNackOK
 	BNackErr
 	BNackPanic
+	BCanceledOut        // context.Canceled together with outputs
+	BWrappedCanceledOut // an error wrapping context.Canceled together with outputs
 	NBehaviours
 )
 
-var behaviourNames = []string{"out0", "out1", "out2", "err", "err+out", "panic(str)", "panic(err)", "panic(nil)", "ack;ok", "ack;err", "ack;panic", "nack;ok", "nack;err", "nack;panic"}
+var behaviourNames = []string{"out0", "out1", "out2", "err", "err+out", "panic(str)", "panic(err)", "panic(nil)", "ack;ok", "ack;err", "ack;panic", "nack;ok", "nack;err", "nack;panic", "canceled+out", "wrapped-canceled+out"}
 
 func (b Behaviour) String() string { return behaviourNames[b] }
 
@@ -291,6 +293,10 @@ func (b Behaviour) Do(m *message.Message) ([]*message.Message, error) {
 	case BNackPanic:
 		m.Nack()
 		panic("scripted handler panic")
+	case BCanceledOut:
+		return Outputs(m, 2), context.Canceled
+	case BWrappedCanceledOut:
+		return Outputs(m, 1), fmt.Errorf("gave up: %w", context.Canceled)
 	}
 	return nil, nil
 }
